@@ -2193,7 +2193,8 @@ def obj_apply_raw(target, subs, contents):
 
 def obj_event_text(ev, shape):
     if ev[0] == "pr":
-        return "probe " + call_text(tuple(ev[1:]), shape)
+        pev = tuple(ev[1:])
+        return "probe " + (call_text(pev, shape) if shape or pev[0] not in METHOD else f"{METHOD[pev[0]]}({pev[1]})")
     parts = []
     for sub in ev[1:]:
         sub = tuple(sub)
